@@ -41,6 +41,8 @@ structure Cfg where
   deriving DecidableEq, Repr
 
 def patched : Cfg := ⟨true, true, true, true, true, true, true, true⟩
+/-- The repository after the merged `fix:` commits: everything but the formula-terms patch. -/
+def head : Cfg := ⟨false, false, true, true, true, true, true, true⟩
 def coded : Cfg := ⟨false, false, false, false, false, false, false, false⟩
 
 inductive Kind | num | str | chr
@@ -435,7 +437,9 @@ def geomDimChecks (F : NcFile) (parent : NcVar) (gv : NcVar) : List Msg :=
   let (gd, who, a) := match cnt with
     | c :: _ => (dimsOf c, c, "node_count")
     | [] => (nd, ncs.headD "", "node_coordinates")
-  let r2 : List Msg := if r1.isEmpty && (gd.length != 1 || !parent.dims.contains (gd.headD "")) then [⟨who, a⟩] else []
+  -- a domain variable (CF>=1.9) names its dimensions in its `dimensions` attribute
+  let pdims := parent.dims ++ optToks (parent.attr? "dimensions")
+  let r2 : List Msg := if r1.isEmpty && (gd.length != 1 || !pdims.contains (gd.headD "")) then [⟨who, a⟩] else []
   let r3 : List Msg := match pnc with
     | p :: _ =>
       (if (dimsOf p).length != 1 then [(⟨p, "part_node_count"⟩ : Msg)] else []) ++
@@ -971,18 +975,69 @@ def createField (cfg : Cfg) (F : NcFile) (P : Pre) (C : Caches) (vv : NcVar) : E
 def fieldStep (cfg : Cfg) (F : NcFile) (P : Pre) (acc : List (String × FieldOut) × Caches) (vv : NcVar) :
     Except Err (List (String × FieldOut) × Caches) :=
   if P.noField.contains vv.name then .ok acc else
+  -- CF>=1.9: a variable with a `dimensions` attribute is a domain variable, no field is made of it
+  if (vv.attr? "dimensions").isSome then .ok acc else
   match createField cfg F P acc.2 vv with
   | .error e => .error e
   | .ok oc => .ok (acc.1 ++ [(vv.name, oc.1)], oc.2)
 
-/-- The body of `read`: a field for every variable that the pre-scan did not claim, in file order. -/
+/-! ### `_reference` and the choice of the fields that are returned
+
+Every `_reference(ncvar, field_ncvar)` call of `_create_field_or_domain` sits right where a construct is
+attached, so the references of a field are read off its attached elements: the variable of each
+dimension / auxiliary / node coordinate, domain ancillary, grid mapping, field ancillary, of each cell
+measure other than the field's own variable, and of every bounds variable. -/
+
+def splitColon (cs : List Char) (cur : List Char) : List String :=
+  match cs with
+  | [] => [String.ofList cur.reverse]
+  | c :: r => if c == ':' then String.ofList cur.reverse :: splitColon r [] else splitColon r (c :: cur)
+
+def elemRefs (field : String) (e : String) : List String :=
+  match splitColon e.toList [] with
+  | ["dim", x] => [x]
+  | ["aux", x] => [x]
+  | ["node", x] => [x]
+  | ["da", x] => [x]
+  | ["anc", x] => [x]
+  | ["msr", x] => if x != field then [x] else []
+  | ["ref", "gm", x] => [x]
+  | ["bnd", _, b] => [b]
+  | _ => []
+
+/-- (referenced variable, referencing variable) pairs of one read. -/
+def references (rs : List (String × FieldOut)) : List (String × String) :=
+  rs.flatMap (fun r => (r.2.elems.flatMap (elemRefs r.1)).map (fun x => (x, r.1)))
+
+def insertSortedS (x : String) : List String → List String
+  | [] => [x]
+  | y :: ys => if x ≤ y then x :: y :: ys else y :: insertSortedS x ys
+
+def sortS (l : List String) : List String := l.foldr insertSortedS []
+
+def stillStep (refs : List (String × String)) (cur : List String) (n : String) : List String :=
+  if (refs.filter (fun p => p.1 == n)).all (fun p => cur.contains p.2) then cur.filter (· != n) else cur
+
+/-- The variables that stay referenced: the referenced ones (sorted), minus — scanning them in order
+against the shrinking list — those whose referencers are all still in the list. -/
+def stillReferenced (rs : List (String × FieldOut)) : List String :=
+  let refs := references rs
+  let referenced := sortS ((rs.map (·.1)).filter (fun n => refs.any (fun p => p.1 == n)))
+  referenced.foldl (stillStep refs) referenced
+
+/-- The end of `read`: the fields of the variables that do not stay referenced. -/
+def selectFields (rs : List (String × FieldOut)) : List (String × FieldOut) :=
+  rs.filter (fun r => !(stillReferenced rs).contains r.1)
+
+/-- The body of `read`: a field for every variable that the pre-scan did not claim, in file order,
+of which the unreferenced ones are returned. -/
 def readBody (cfg : Cfg) (F : NcFile) : Except Err (List (String × FieldOut)) :=
   match preScan cfg F with
   | .error e => .error e
   | .ok P =>
     match F.vars.foldlM (fieldStep cfg F P) ([], { report := P.msgs.map (·.2) }) with
     | .error e => .error e
-    | .ok r => .ok r.1
+    | .ok r => .ok (selectFields r.1)
 
 structure Outcome where
   result : Except Err (List (String × FieldOut))
